@@ -10,7 +10,7 @@ import math
 import os
 
 ACT = {"NONE": 0, "RELU": 1, "RELU_N1_TO_1": 2, "RELU6": 3}
-EXACT_OPS = ["conv", "conv", "conv", "dw", "fc", "maxpool", "avgpool_valid", "add", "add", "sub", "mul", "relu", "relu6", "reshape", "concat", "pad", "quantize",
+EXACT_OPS = ["conv", "conv", "conv", "twinconv", "dw", "fc", "maxpool", "avgpool_valid", "add", "add", "sub", "mul", "relu", "relu6", "reshape", "concat", "pad", "quantize",
              "sslice", "split", "maximum", "minimum", "add_const", "mul_const", "padconv"]
 APPROX_TAIL_OPS = ["avgpool_same", "logistic", "tanh", "hswish", "lrelu", "softmax", "mean", "resize_nearest", "resize_bilinear", "abs", "tconv", "exp", "log", "sqrt", "rsqrt", "gelu", "prelu"]
 LUT_UNARY = {"exp": "EXP", "log": "LOG", "sqrt": "SQRT", "rsqrt": "RSQRT", "gelu": "GELU"}
@@ -129,6 +129,25 @@ class NB:
         else:
             self.op("CONV_2D", [x, wt, bt] if not no_bias else [x, wt, -1], [o], "Conv2DOptions", fields, version=3)
         return o
+
+    def twinconv(self, x):
+        """two convolutions over the same input that share one weight tensor but have their own bias (the second one gets a stand-alone scale/bias stream), summed"""
+        import copy
+
+        o1 = self.conv(x, self.draw(self.st.sampled_from(["conv", "conv", "dw"])))
+        op1 = self.ops[-1]
+        if len(op1["inputs"]) < 3 or op1["inputs"][2] < 0:
+            return o1
+        wt, bt = op1["inputs"][1], op1["inputs"][2]
+        b2 = copy.deepcopy(self.tensors[bt])
+        self.n += 1
+        b2["name"] = "b_twin_%d" % self.n
+        b2["data"] = dict(b2["data"], seed=b2["data"]["seed"] + 17)
+        self.tensors.append(b2)
+        O = self.info(o1)
+        o2 = self.out("twin", O["shape"], O["dtype"], self.quant(O["dtype"]))
+        self.ops.append(dict(copy.deepcopy(op1), inputs=[x, wt, len(self.tensors) - 2], outputs=[o2]))
+        return self.binary(o1, "ADD", o2)
 
     def tconv(self, x, force_stride=None):
         d, st = self.draw, self.st
@@ -813,7 +832,7 @@ def network(profile="exact", max_ops=6, dtypes=("int8", "int8", "int8", "uint8",
             menu = ["add", "add", "mul", "sub", "custom", "custom", "rich_cpu", "relu", "add_const", "maximum", "dw_same"]
             n_ops = draw(st.integers(3, max(max_ops, 3)))
         if profile == "convs":  # one or two convolution-type operators: kernel sizes, strides, per-axis dilations (also >2), paddings, depth multipliers
-            menu = ["conv", "conv", "conv", "dw", "padconv", "fc"]
+            menu = ["conv", "conv", "conv", "dw", "padconv", "fc", "twinconv"]
             n_ops = draw(st.integers(1, 2))
         if profile == "luts":  # many table-driven activations in one NPU subgraph: LUT slot allocation, eviction and re-use (tables repeat because quantisations repeat)
             menu = ["logistic", "tanh", "hswish", "lrelu", "logistic", "tanh", "hswish", "lrelu", "add_const", "relu", "conv", "softmax", "softmax", "softmax", "exp", "gelu", "sqrt", "log", "rsqrt"]
@@ -842,7 +861,7 @@ def network(profile="exact", max_ops=6, dtypes=("int8", "int8", "int8", "uint8",
                     kind = "reshape"
                 elif kind == "reshape":
                     kind = "conv"
-            if not r4 and kind in ("conv", "dw", "dw_same", "unsupported_conv", "maxpool", "avgpool_valid", "avgpool_same", "padconv", "tconv", "resize_nearest", "resize_bilinear") or (kind == "mean" and len(X["shape"]) not in (2, 3, 4)):
+            if not r4 and kind in ("conv", "twinconv", "dw", "dw_same", "unsupported_conv", "maxpool", "avgpool_valid", "avgpool_same", "padconv", "tconv", "resize_nearest", "resize_bilinear") or (kind == "mean" and len(X["shape"]) not in (2, 3, 4)):
                 kind = draw(st.sampled_from(["fc", "add_const", "reshape", "relu", "mul_const"]))
             if len(X["shape"]) == 0 and kind not in ("relu", "relu6", "quantize"):
                 kind = "relu"  # a scalar (everything reduced away): only element-wise operators apply
@@ -852,6 +871,8 @@ def network(profile="exact", max_ops=6, dtypes=("int8", "int8", "int8", "uint8",
                 kind = draw(st.sampled_from(["maxpool", "relu"])) if r4 else "relu"
             if kind == "conv":
                 cur = nb.conv(cur)
+            elif kind == "twinconv":
+                cur = nb.twinconv(cur)
             elif kind == "dw":
                 cur = nb.conv(cur, "dw")
             elif kind == "dw_same":
